@@ -1282,6 +1282,9 @@ func runC14(a vh.Args, o *vh.Oracle, r *vh.Result) error {
 	if err := c14PutRetries(a, o, r, rng.Fork()); err != nil {
 		return err
 	}
+	if err := c14Overlap(a, o, r, rng.Fork()); err != nil {
+		return err
+	}
 	return c14Framing(a, o, r, rng.Fork())
 }
 
@@ -1290,6 +1293,8 @@ func c14Replay(a vh.Args, o *vh.Oracle, r *vh.Result, c *c14Case) error {
 	switch c.Part {
 	case "putretry":
 		return c14PutRetries(a, o, r, rng)
+	case "overlap":
+		return c14Overlap(a, o, r, rng)
 	case "script":
 		srv, err := c14NewScriptSrv()
 		if err != nil {
